@@ -28,7 +28,7 @@ func init() {
 
 const execHeader = `From Coq Require Import String List ZArith Bool.
 Import ListNotations.
-From GW Require Import Base.Json Gw.ExecLTS Gw.ExecCheck.
+From GW Require Import Base.Res Base.Json Gw.ExecLTS Gw.ExecCheck Gw.Points Gw.PointsCheck.
 Local Open Scope string_scope.
 Local Open Scope bool_scope.
 `
@@ -440,15 +440,33 @@ func runExec(cfg *runCfg, prop string) error {
 	doc := &CasesDoc{Property: prop, Seed: cfg.Seed, Tier: cfg.Tier, Dist: map[string]int{}}
 	var cases []*xCase
 	if cfg.Replay != "" {
-		var rp struct {
+		var kind struct {
 			Case struct {
-				Input xCase `json:"input"`
+				Kind  string          `json:"kind"`
+				Input json.RawMessage `json:"input"`
 			} `json:"case"`
 		}
-		if err := readJSON(cfg.Replay, &rp); err != nil {
+		if err := readJSON(cfg.Replay, &kind); err != nil {
 			return err
 		}
-		cases = append(cases, &rp.Case.Input)
+		if kind.Case.Kind == "points" {
+			pc := &ptCase{}
+			if err := json.Unmarshal(kind.Case.Input, pc); err != nil {
+				return err
+			}
+			pid := 0
+			pointsCases(r, sh, doc, &pid, 1, pc)
+			if err := sh.Flush(); err != nil {
+				return err
+			}
+			doc.Shards = sh.Files
+			return doc.Write(cfg.Out)
+		}
+		xc := &xCase{}
+		if err := json.Unmarshal(kind.Case.Input, xc); err != nil {
+			return err
+		}
+		cases = append(cases, xc)
 	} else {
 		// the shape that dead-locked the pinned tree first: one parent, many failing children
 		many := &xStep{ID: 0, Fan: 40, Kids: []*xStep{{ID: 1, Fan: 0, Fail: "transport"}}}
@@ -569,6 +587,10 @@ func runExec(cfg *runCfg, prop string) error {
 		doc.Dist[fmt.Sprintf("nodes:%s", bucket(counter))]++
 		doc.Dist[fmt.Sprintf("failing:%s", bucket(nfail))]++
 		id++
+	}
+	if cfg.Replay == "" {
+		// what the collector does with each result: the stitching functions on their own
+		pointsCases(r, sh, doc, &id, 2*n, nil)
 	}
 	if err := sh.Flush(); err != nil {
 		return err
